@@ -34,6 +34,12 @@ def expected_kernarg(case):
             w = struct.calcsize(ARR[t])
             for v in f['vs']:
                 out += struct.pack('<' + ARR[t], v & ((1 << (8 * w)) - 1))
+        elif t == 'f32':
+            # reflect.Value.Float() goes through float64: a signalling NaN comes back quiet
+            v = f['v'] & 0xffffffff
+            if (v >> 23) & 0xff == 0xff and v & 0x7fffff:
+                v |= 0x400000
+            out += struct.pack('<I', v)
         else:
             w = struct.calcsize(FMT[t])
             out += struct.pack('<' + FMT[t], f['v'] & ((1 << (8 * w)) - 1))
@@ -102,9 +108,10 @@ def monitor_t(case):
         ti = prog[offs[s[0]]]
         if s[3]:
             # leaving a barrier: every wavefront of the work-group must have arrived
+            # (a wavefront that already ended counts as arrived)
             for w2 in range(nwf):
                 s2 = st.get((g, w2))
-                if s2 is None or s2[1] < s[1]:
+                if s2 is None or (s2[1] < s[1] and not s2[2]):
                     return 'wavefront %s passed barrier %d before wavefront %d arrived' % (key, s[1], w2)
             s[3] = False
         nxt = s[0] + ti['sz']
@@ -123,13 +130,7 @@ def monitor_t(case):
         if ti['op'] == 'end':
             s[2] = True
     if o['panic']:
-        if 'not all wavefronts at barrier' not in (o.get('msg') or ''):
-            return 'compute unit panicked: %s' % o.get('msg')
-        g = max(k[0] for k in st) if st else 0
-        ws = [st.get((g, w)) for w in range(nwf)]
-        if any(s is None for s in ws) or not (any(s[2] for s in ws) and any(s[3] for s in ws)):
-            return 'panic "not all wavefronts at barrier" although the wavefronts agree'
-        return None
+        return 'compute unit panicked on a valid program: %s' % o.get('msg')
     for g in range(case['nwg']):
         for w in range(nwf):
             s = st.get((g, w))
@@ -190,7 +191,7 @@ W['nbody'] = dict(sizes=['-particles=128 -iter=2', '-particles=100 -iter=2', '-p
 W['nw'] = dict(sizes=['-length=64', '-length=128'], cdna3=True, multi=False, unified=False, um=False, timing=False)
 W['pagerank'] = dict(sizes=['-node=32 -sparsity=0.5 -iterations=2', '-node=65 -sparsity=0.1 -iterations=2', '-node=1 -sparsity=1 -iterations=1'],
                      cdna3=True, multi=True, unified=True, um=True, timing=True)
-W['relu'] = dict(sizes=['-length=1000', '-length=63', '-length=1', '-length=4097'], cdna3=True, multi=True, unified=True, um=True, timing=True)
+W['relu'] = dict(sizes=['-length=1000', '-length=63', '-length=1', '-length=4097'], cdna3=True, multi=True, unified=True, um=True, timing=True, multi_sizes=['-length=1000', '-length=4096'])
 W['simpleconvolution'] = dict(sizes=['-width=30 -height=30', '-width=17 -height=33', '-width=1 -height=1', '-width=64 -height=64 -mask-size=5'],
                               cdna3=True, multi=True, unified=True, um=True, timing=True)
 W['spmv'] = dict(sizes=['-dim=64 -sparsity=0.1', '-dim=63 -sparsity=0.1', '-dim=100 -sparsity=0.05', '-dim=1 -sparsity=1'], cdna3=True, multi=True, unified=True, um=False, timing=True)
@@ -201,18 +202,20 @@ W['im2col'] = dict(sizes=['', '-H=8 -W=8 -pad-x=1 -pad-y=1 -stride-x=2 -stride-y
 W['memcopy'] = dict(sizes=[''], cdna3=False, multi=False, unified=False, um=False, timing=False)
 
 # Known findings: (id, witness command, timeout, matcher on a configuration, text)
+HANG2 = ('relu', 'aes', 'simpleconvolution')
+
 KNOWN = [
     dict(id='unified-memory-timing-multi-gpu', witness='atax -x=64 -y=64 -gpus=1,2 -timing -use-unified-memory', timeout=60,
          match=lambda c: c['timing'] and c['um'] and c['ngpu'] >= 2,
          text='timing platform, >=2 GPUs, -use-unified-memory (listed in the acceptance matrix): first page migration panics '
               '(nil pointer in cp ctrlMiddleware.processRDMADrainRsp; CommandProcessor.Driver is never set) — DESIGN §4 row 15'),
-    dict(id='timing-discrete-gpus-across-switches', witness='fir -length=64 -timing -gpus=1,2,3', timeout=25, hang=True,
-         match=lambda c: c['timing'] and not c['unified'] and c['ngpu'] >= 3,
-         text='timing platform with >=3 discrete GPUs (fir -gpus=1,2,3,4 -timing is listed in the acceptance matrix): the run never '
-              'terminates, a command in flight is never completed — DESIGN §4 row 16 (component open, C11/C18)'),
-    dict(id='cdna3-timing-mi300a-id-packing', witness='matrixtranspose -width=64 -arch=cdna3 -timing -gpu=mi300a', timeout=60,
-         match=lambda c: c['timing'] and c['arch'] == 'cdna3' and c['w'] != 'vectoradd',
-         text='matrixtranspose -arch=cdna3 -timing -gpu=mi300a fails -verify (passes in emulation); not an acceptance-matrix class — DESIGN §4 row 9c (C02)'),
+    dict(id='timing-discrete-multi-gpu-hang', witness='relu -length=128 -gpus=1,2 -timing', timeout=30, hang=True,
+         match=lambda c: c['timing'] and not c['unified'] and (c['ngpu'] >= 3 or (c['ngpu'] == 2 and c['w'] in HANG2)),
+         text='timing platform with several discrete GPUs (classes listed in the acceptance matrix): the run deadlocks (<1 s CPU, a command '
+              'in flight is never completed) for every workload with >=3 GPUs (fir -gpus=1,2,3[,4]) and for relu, aes, simpleconvolution '
+              'already with -gpus=1,2 — DESIGN §4 row 16 (component open, C11/C18); fir/atax/bicg/kmeans/... -gpus=1,2 -timing pass'),
+    dict(id='timing-discrete-multi-gpu-hang', witness='fir -length=64 -timing -gpus=1,2,3', timeout=30, hang=True,
+         match=lambda c: False, text='same class, >=3 GPUs witness'),
     dict(id='fastwalshtransform-discrete-multi-gpu', witness='fastwalshtransform -length=256 -gpus=1,2', timeout=60,
          match=lambda c: c['w'] == 'fastwalshtransform' and not c['unified'] and c['ngpu'] >= 2,
          text='fastwalshtransform with N discrete GPUs enqueues the complete in-place transform on every GPU queue, so the array is '
@@ -257,7 +260,7 @@ def full_matrix():
             m.append(mk(w, s))
             if d['cdna3']:
                 m.append(mk(w, s, arch='cdna3'))
-            msz = d.get('multi_sizes', d['sizes'])
+            msz = d.get('multi_sizes', d['sizes'][:1])
             if s in msz:
                 for g in ('2', '1,2', '1,2,3,4'):
                     if d['multi'] or g == '2':
@@ -302,7 +305,8 @@ def quick_matrix(rng):
         mk('kmeans', '-points=65 -features=3 -clusters=2 -max-iter=3'), mk('aes', '-length=1024', arch='cdna3'),
         mk('bitonicsort', '-length=256'), mk('simpleconvolution', '-width=17 -height=33'),
         mk('spmv', '-dim=63 -sparsity=0.1', arch='cdna3'), mk('stencil2d', '-row=64 -col=64', arch='cdna3', gpus='1,2', unified=True),
-        mk('relu', '-length=63', timing=True, gpus='1,2'), mk('vectoradd', '-width=4096 -height=1', arch='cdna3', timing=True, gpu='mi300a'),
+        mk('atax', '-x=64 -y=64', timing=True, gpus='1,2'), mk('vectoradd', '-width=4096 -height=1', arch='cdna3', timing=True, gpu='mi300a'),
+        mk('matrixtranspose', '-width=64', arch='cdna3', timing=True, gpu='mi300a'),  # failed before the V5 id-packing fix (DESIGN §4 row 9c)
         mk('floydwarshall', '-node=16', gpus='1,2', unified=True, timing=True), mk('nbody', '-particles=100 -iter=2'),
         mk('pagerank', '-node=65 -sparsity=0.1 -iterations=2', gpus='1,2'), mk('fft', '-bytes=8192', arch='cdna3'),
         mk('bfs', '-node=63', arch='cdna3'), mk('nw', '-length=64', arch='cdna3'),
@@ -410,6 +414,10 @@ def main(argv):
         else:
             matrix = quick_matrix(rng)
         witnesses = KNOWN
+        if os.environ.get('VERIF_C01_PART') == 'glue':   # development aid: proofs + correspondence only
+            matrix, witnesses = [], []
+        elif os.environ.get('VERIF_C01_PART') == 'matrix':
+            pass
 
     def run_matrix():
         names = sorted({c['w'] for c in matrix} | {k['witness'].split()[0] for k in witnesses} | {s.split()[0] for s in single})
@@ -418,7 +426,7 @@ def main(argv):
         bindir, bad = build_samples(names)
         if bad:
             return dict(build_failed=bad)
-        jobs = [(cfg_cmd(c), 240 if thorough else 100) for c in matrix] + [(k['witness'], k['timeout']) for k in witnesses] + [(s, 240) for s in single]
+        jobs = [(cfg_cmd(c), 240 if thorough else 75) for c in matrix] + [(k['witness'], k['timeout']) for k in witnesses] + [(s, 240) for s in single]
         with ThreadPoolExecutor(max_workers=12) as ex:
             res = list(ex.map(lambda j: run_cfg(bindir, j[0], j[1]), jobs))
         # a failing configuration is re-run (alone) before it is believed
@@ -487,6 +495,27 @@ def main(argv):
     def nontrivial_k(c):
         return any(f['t'] == 'local' for f in c['fields']) and len(c['fields']) >= 3
 
+    def early_exit(c):
+        """some wavefront executed s_endpgm having passed fewer barriers than another wavefront of its work-group"""
+        nb = collections.Counter()
+        ended = {}
+        # count barriers per wavefront by replaying instruction sizes
+        starts, off = {}, 0
+        for ti in c['prog']:
+            starts[off] = ti
+            off += ti['sz']
+        cur = {}
+        for g, w, pc in c['obs']['trace']:
+            ti = starts.get(cur.get((g, w), 0))
+            cur[(g, w)] = pc
+            if ti is None:
+                continue
+            if ti['op'] == 'barrier':
+                nb[(g, w)] += 1
+            if ti['op'] == 'end':
+                ended[(g, w)] = nb[(g, w)]
+        return any(ended[k] < max(nb[k2] for k2 in cur if k2[0] == k[0]) for k in ended)
+
     def nontrivial_t(c):
         return c['nwf'] >= 2 and any(i['op'] == 'barrier' for i in c['prog'])
 
@@ -521,14 +550,14 @@ def main(argv):
             else:
                 fails.append(tries)
     for k, r in known_seen:
-        rep.known_finding('%s: `%s` -> %s | %s' % (k['id'], k['witness'], reason(r), k['text']))
+        rep.known_finding('%s: `%s` -> %s | %s' % (k['id'], k['witness'], reason(r), k['text']), key=k['id'])
     for k in known_gone:
         print('# note: known finding %s no longer reproduces (`%s` passes)' % (k['id'], k['witness']))
     n_td = sum(1 for r in flaky if teardown_race(r))
     if n_td:
         rep.known_finding('teardown-race: %d run(s) printed their verification result and then exited 1 with "%s" (tracing torn down by '
                           'Runner.Run while the driver engine goroutine still ticks; passes when re-run) e.g. `%s`'
-                          % (n_td, TEARDOWN_SIG, [r for r in flaky if teardown_race(r)][0]['cmd']))
+                          % (n_td, TEARDOWN_SIG, [r for r in flaky if teardown_race(r)][0]['cmd']), key='teardown-race')
     for r in flaky:
         if not teardown_race(r):
             print('# note: `%s` did not terminate once and passed when re-run (driver drain race, see C12)' % r['cmd'])
@@ -559,7 +588,7 @@ def main(argv):
         'kernarg_launches': len(kterms), 'kernarg_cases': len(kc),
         'kernarg_with_lds_pointer': sum(1 for c in kc if any(f['t'] == 'local' for f in c['fields'])),
         'kernarg_unified_device': sum(1 for c in kc if c.get('unified')),
-        'emuloop_cases': len(tc), 'emuloop_panics': sum(1 for c in tc if c['obs']['panic']),
+        'emuloop_cases': len(tc), 'emuloop_early_exit_before_barrier': sum(1 for c in tc if early_exit(c)),
         'emuloop_with_barrier': sum(1 for c in tc if nontrivial_t(c)),
         'emuloop_instructions': sum(len(c['obs']['trace']) for c in tc),
         'model_mismatches': len(mism_k) + len(mism_t), 'monitor_failures': len(bad_k) + len(bad_t),
